@@ -287,7 +287,7 @@ Vector Spherical_Coordinates(double r, double theta, double phi, const Vector& a
 	{
 
 		double cos_theta = cos(theta);
-		double sin_theta = sqrt(1.0 - cos_theta * cos_theta);
+		double sin_theta = sin(theta);
 		double cos_phi	 = cos(phi);
 		double sin_phi	 = sin(phi);
 
